@@ -172,6 +172,23 @@ def check_error(e, files, crlf):
     return results[best][0], best, results[best][1], results
 
 
+def _covers(text, span, unit, token):
+    m = re.match(r"(\d+):(\d+)-(\d+)$", span)
+    a, b = int(m.group(2)), int(m.group(3))
+    if unit == "byte":
+        raw = text.encode("utf-8")
+        try:
+            a, b = len(raw[:a].decode("utf-8")), len(raw[:b].decode("utf-8"))
+        except UnicodeDecodeError:
+            return False
+    if not (0 <= a <= b <= len(text)):
+        return False
+    ta = text.index(token)
+    tb = ta + len(token)
+    spanned = text[a:b]
+    return (a <= ta and tb <= b) or (ta <= a and b <= tb) or (spanned.strip() == "" and (b == ta or a == tb or (a <= ta <= b)))
+
+
 def judge(w, sources, root, main_path, target, token, crlf=False):
     """sources: ordered [(path, text)]; returns (violations-symptoms, n_errors, info)."""
     if len(sources) == 1 and sources[0][0] == "":
@@ -206,6 +223,25 @@ def judge(w, sources, root, main_path, target, token, crlf=False):
             if len(res) > 2 and res[2] and "\n" in res[2]:
                 info["multiline_spans"] = info.get("multiline_spans", 0) + 1
             info["unit"][unit or "none"] = info["unit"].get(unit or "none", 0) + 1
+        # sources with multi-byte text: is this exactly the listed defect (the span is a BYTE span that is
+        # rendered as a character span)?  That is the case when, read as bytes, the span is in bounds, on
+        # character boundaries and covers the offending token, and only the derived location / quoted line
+        # disagree.  Anything else in such a source is reported under its own symptom.
+        if e.get("span") and len(res) > 3:
+            sid0 = int(e["span"].split(":")[0])
+            text0 = files.get(sid0, ("", ""))[1]
+            if not text0.isascii():
+                bf = res[3]["byte"][0]
+                cf = res[3]["char"][0]
+                tok_b = tok_c = True
+                if token is not None and len(errs) == 1 and text0.count(token) == 1:
+                    tok_b = _covers(text0, e["span"], "byte", token)
+                    tok_c = _covers(text0, e["span"], "char", token)
+                if not (not cf and tok_c):
+                    if set(bf) <= {"location", "display_line"} and tok_b and (bf or not tok_c or cf):
+                        out.append(("loc:byte_offsets_as_chars", "span=%s location=%s reason=%r (as bytes the span covers the token; location/display are computed as if it were characters)" % (
+                            e.get("span"), e.get("location"), e.get("reason", "")[:80])))
+                        continue
         if fails:
             out.append(("loc:" + "+".join(fails), "span=%s location=%s reason=%r spanned=%r" % (e.get("span"), e.get("location"), e.get("reason", "")[:80], (res[2] if len(res) > 2 else None))))
         elif token is not None and e.get("span") and len(res) > 2 and len(errs) == 1:
